@@ -16,8 +16,8 @@ import random
 import catalogue
 import loadreplay
 import render
-from common import (BUILD, NCPU, SEED, SPEC, MachineryError, Verdict, chunked,
-                    run_tlc)
+from common import (BUILD, CACHE, NCPU, SEED, SPEC, MachineryError, Verdict,
+                    chunked, run_tlc)
 
 MODELS_JSON = os.path.join(BUILD, 'models.json')
 
@@ -49,7 +49,7 @@ def tlc_cases(cfg, module='MC_LoadRef', timeout=7200, extra_files=(),
         with open(os.path.join(SPEC, fn), 'rb') as f:
             h.update(f.read())
     key = h.hexdigest()[:20]
-    cdir = os.path.join(BUILD, 'cache')
+    cdir = CACHE
     os.makedirs(cdir, exist_ok=True)
     path = os.path.join(cdir, '%s-%s.json' % (os.path.splitext(cfg)[0], key))
     with open(path + '.lock', 'w') as lock:
